@@ -220,6 +220,13 @@ pub enum HeaderSpec {
     SameTrace { span: u64, flags: Option<u8> },
 }
 
+#[derive(Clone, Debug, PartialEq, Eq, Hash)]
+pub enum PlainHow {
+    Call,
+    Thread,
+    Future,
+}
+
 /// What a child is run through.
 #[derive(Clone, Debug, PartialEq, Eq, Hash)]
 pub enum Via {
@@ -231,6 +238,9 @@ pub enum Via {
     /// An incoming trace id without a usable span id; `handoff`: the child additionally runs on
     /// another thread through a `Frame::current(ctxt)` captured inside the pushed frame.
     TraceOnly { trace: u128, how: TraceOnly, handoff: bool },
+    /// A NON-span frame captured inside whatever is current: `Frame::push(ctxt, ("plain", 1))`,
+    /// then `call` on this thread / `in_fn` handed to a new thread / `in_future` around the child.
+    Plain { how: PlainHow },
     /// `Traceparent::push()` (or `emit_traceparent::push(tp, tracestate)` when `with_state`).
     Header { spec: HeaderSpec, with_state: bool },
     /// A fresh thread under a header *formatted from* `Traceparent::current()` and parsed back.
@@ -314,6 +324,11 @@ impl Node {
                     out.push(match via {
                         Via::Direct => b'd',
                         Via::Thread => b't',
+                        Via::Plain { how } => match how {
+                            PlainHow::Call => b'c',
+                            PlainHow::Thread => b'T',
+                            PlainHow::Future => b'f',
+                        },
                         Via::Props { form, .. } => match form {
                             IdForm::Typed => b'P',
                             IdForm::HexLower => b'h',
@@ -392,6 +407,7 @@ struct Profile {
     p_remote: u64,
     p_explicit: u64,
     p_deeper: u64,
+    p_plain: u64,
 }
 
 struct Gen<'a> {
@@ -520,6 +536,15 @@ impl<'a> Gen<'a> {
                 },
             };
         }
+        if !self.cfg.traceparent && !top && g.chance(self.p.p_plain, 16) {
+            return Via::Plain {
+                how: match g.below(3) {
+                    0 => PlainHow::Call,
+                    1 => PlainHow::Thread,
+                    _ => PlainHow::Future,
+                },
+            };
+        }
         if g.chance(self.p.p_thread, 16) {
             Via::Thread
         } else {
@@ -593,6 +618,8 @@ pub fn gen_tree(g: &mut Rng, cfg: &GenCfg) -> Node {
         p_remote: *g.pick(if dense { &[1u64, 2, 3] } else { &[0u64, 1, 3] }),
         p_explicit: *g.pick(&[0u64, 0, 2, 4]),
         p_deeper: *g.pick(if dense { &[14u64, 16, 16, 16] } else { &[8u64, 11, 14, 16] }),
+        // (not drawn for the trace-context generator, whose trees stay what they were)
+        p_plain: if cfg.traceparent { 0 } else { *g.pick(&[0u64, 2, 4]) },
     };
     let budget = 1 + g.below(cfg.max_nodes as u64) as u32;
     let mut gen = Gen {
@@ -798,6 +825,9 @@ pub trait Env: 'static {
     /// `Frame::current(ctxt).in_fn(f)`, boxed. Implemented per runtime (by `impl_env!`) because
     /// only the concrete frame type is known to be `Send`.
     fn in_current_frame<'a>(f: Box<dyn FnOnce() + Send + 'a>) -> Box<dyn FnOnce() + Send + 'a>;
+
+    /// `Frame::push(ctxt, ("plain", 1)).in_fn(f)`, boxed: a non-span frame with props of its own.
+    fn in_plain_frame<'a>(f: Box<dyn FnOnce() + Send + 'a>) -> Box<dyn FnOnce() + Send + 'a>;
 }
 
 /// Declare an [`Env`]: `impl_env!(Name, "label", traceparent?, [E, F, C, T, R], rt_expr);`
@@ -819,8 +849,83 @@ macro_rules! impl_env {
             fn in_current_frame<'a>(f: Box<dyn FnOnce() + Send + 'a>) -> Box<dyn FnOnce() + Send + 'a> {
                 Box::new(emit::Frame::current(Self::rt().ctxt()).in_fn(f))
             }
+            fn in_plain_frame<'a>(f: Box<dyn FnOnce() + Send + 'a>) -> Box<dyn FnOnce() + Send + 'a> {
+                Box::new(emit::Frame::push(Self::rt().ctxt(), ("plain", 1)).in_fn(f))
+            }
         }
     };
+}
+
+// ---------------------------------------------------------------------------
+// a context whose current props legitimately repeat keys
+// ---------------------------------------------------------------------------
+
+/// A small `Ctxt` that only implements `open_root` (an ordered list of owned key-values, nothing
+/// de-duplicated) and relies on the trait's DEFAULT `open_push` = `open_root(props.and_props(current))`
+/// and DEFAULT `open_disabled`. Its current props therefore repeat keys — one `trace_id` /
+/// `span_id` / `span_parent` / `id` per nesting level — with the innermost value FIRST, which is
+/// what the first-wins `Props` contract makes the effective one.
+pub struct ListCtxt;
+
+type ListItems = Arc<Vec<(emit::Str<'static>, emit::value::OwnedValue)>>;
+
+#[derive(Clone)]
+pub struct ListProps(ListItems);
+
+thread_local! {
+    static LIST_CURRENT: RefCell<ListProps> = RefCell::new(ListProps(Arc::new(Vec::new())));
+}
+
+impl emit::Props for ListProps {
+    fn for_each<'kv, F: FnMut(emit::Str<'kv>, emit::Value<'kv>) -> std::ops::ControlFlow<()>>(
+        &'kv self,
+        mut for_each: F,
+    ) -> std::ops::ControlFlow<()> {
+        for (k, v) in self.0.iter() {
+            for_each(k.by_ref(), v.by_ref())?;
+        }
+        std::ops::ControlFlow::Continue(())
+    }
+}
+
+impl ListProps {
+    pub fn len(&self) -> usize {
+        self.0.len()
+    }
+}
+
+impl Ctxt for ListCtxt {
+    type Current = ListProps;
+    type Frame = ListProps;
+
+    fn open_root<P: emit::Props>(&self, props: P) -> ListProps {
+        let mut items = Vec::new();
+        let _ = props.for_each(|k, v| {
+            items.push((k.to_shared(), v.to_shared()));
+            std::ops::ControlFlow::Continue(())
+        });
+        ListProps(Arc::new(items))
+    }
+
+    fn enter(&self, frame: &mut ListProps) {
+        LIST_CURRENT.with(|c| std::mem::swap(&mut *c.borrow_mut(), frame));
+    }
+
+    fn with_current<R, F: FnOnce(&ListProps) -> R>(&self, with: F) -> R {
+        let current = LIST_CURRENT.with(|c| c.borrow().clone());
+        with(&current)
+    }
+
+    fn exit(&self, frame: &mut ListProps) {
+        LIST_CURRENT.with(|c| std::mem::swap(&mut *c.borrow_mut(), frame));
+    }
+
+    fn close(&self, _: ListProps) {}
+}
+
+/// How many key-values the list context of this thread currently holds (evidence only).
+pub fn list_ctxt_len() -> usize {
+    LIST_CURRENT.with(|c| c.borrow().len())
 }
 
 fn observe<X: Env>(cx: &TreeCx, node: u32, point: Point) {
@@ -1127,6 +1232,30 @@ fn run_via_blocking<X: Env>(parent: u32, i: u16, child: &Node, via: &Via, cx: &T
                 }
             });
         }
+        Via::Plain { how } => match how {
+            PlainHow::Thread => {
+                let f = X::in_plain_frame(Box::new(move || {
+                    with_tree(cx, || {
+                        observe::<X>(cx, parent, Point::ViaIn(i));
+                        run_node::<X>(child, cx);
+                        observe::<X>(cx, parent, Point::ViaOut(i));
+                    })
+                }));
+                std::thread::scope(|s| {
+                    if let Err(p) = s.spawn(f).join() {
+                        std::panic::resume_unwind(p);
+                    }
+                });
+            }
+            // (a sync parent has no task to hand the future to: it runs it to completion here)
+            PlainHow::Call | PlainHow::Future => {
+                Frame::push(X::rt().ctxt(), ("plain", 1)).call(|| {
+                    observe::<X>(cx, parent, Point::ViaIn(i));
+                    run_node::<X>(child, cx);
+                    observe::<X>(cx, parent, Point::ViaOut(i));
+                });
+            }
+        },
         Via::Props { trace, span, form } => {
             push_props::<X>(*trace, *span, form).call(|| {
                 observe::<X>(cx, parent, Point::ViaIn(i));
@@ -1197,6 +1326,29 @@ fn run_via_blocking<X: Env>(parent: u32, i: u16, child: &Node, via: &Via, cx: &T
     }
 }
 
+/// Did member `k` of a group with schedule `sched` get wrapped in a captured `Frame::current`?
+pub fn member_is_wrapped(sched: u64, k: usize) -> bool {
+    (sched >> (40 + (k % 16))) & 1 == 1
+}
+
+/// The futures of a group. Some members (chosen by bits of the schedule) are handed over the way
+/// a task is handed to an executor: inside a `Frame::current(ctxt)` captured here, i.e. a
+/// non-span frame that is entered and exited on every poll.
+fn group_members<'a, X: Env>(nodes: &'a [Node], sched: u64, cx: &'a TreeCx) -> Vec<Option<BoxFut<'a>>> {
+    nodes
+        .iter()
+        .enumerate()
+        .map(|(k, n)| {
+            let fut = run_any_async::<X>(n, cx);
+            if member_is_wrapped(sched, k) {
+                Some(Box::pin(Frame::current(X::rt().ctxt()).in_future(fut)) as BoxFut<'a>)
+            } else {
+                Some(fut)
+            }
+        })
+        .collect()
+}
+
 fn body_sync<X: Env>(node: &Node, cx: &TreeCx) {
     observe::<X>(cx, node.id, Point::Enter);
     for (i, step) in node.steps.iter().enumerate() {
@@ -1212,7 +1364,7 @@ fn body_sync<X: Env>(node: &Node, cx: &TreeCx) {
             Step::Group { nodes, sched } => {
                 observe::<X>(cx, node.id, Point::Before(i));
                 let order = block_on(JoinSeeded {
-                    futs: nodes.iter().map(|n| Some(run_any_async::<X>(n, cx))).collect(),
+                    futs: group_members::<X>(nodes, *sched, cx),
                     g: Rng::new(*sched),
                     order: Vec::new(),
                 });
@@ -1239,6 +1391,15 @@ async fn body_async<X: Env>(node: &Node, cx: &TreeCx) {
                 match via {
                     // stay inside this task, so siblings of this node can interleave with the child
                     Via::Direct => run_any_async::<X>(child, cx).await,
+                    Via::Plain { how: PlainHow::Future } => {
+                        Frame::push(X::rt().ctxt(), ("plain", 1))
+                            .in_future(async {
+                                observe::<X>(cx, node.id, Point::ViaIn(i));
+                                run_any_async::<X>(child, cx).await;
+                                observe::<X>(cx, node.id, Point::ViaOut(i));
+                            })
+                            .await
+                    }
                     Via::Props { trace, span, form } => {
                         push_props::<X>(*trace, *span, form)
                             .in_future(async {
@@ -1257,14 +1418,16 @@ async fn body_async<X: Env>(node: &Node, cx: &TreeCx) {
                             })
                             .await
                     }
-                    Via::Thread | Via::Remote | Via::TraceOnly { .. } => run_via_blocking::<X>(node.id, i, child, via, cx),
+                    Via::Thread | Via::Remote | Via::TraceOnly { .. } | Via::Plain { .. } => {
+                        run_via_blocking::<X>(node.id, i, child, via, cx)
+                    }
                 }
                 observe::<X>(cx, node.id, Point::After(i));
             }
             Step::Group { nodes, sched } => {
                 observe::<X>(cx, node.id, Point::Before(i));
                 let order = JoinSeeded {
-                    futs: nodes.iter().map(|n| Some(run_any_async::<X>(n, cx))).collect(),
+                    futs: group_members::<X>(nodes, *sched, cx),
                     g: Rng::new(*sched),
                     order: Vec::new(),
                 }
